@@ -126,6 +126,40 @@ fn gen_case(mode: &str, seed: u64, idx: u64, tier: &str) -> Case {
                 gen::gen_model(&mut r, &p)
             }
         }
+        "c16" if idx % 13 == 12 => {
+            // family (b): one linear inequality over interval variables spanning up to the whole 32-bit range
+            const LIM: i64 = (1 << 31) - 1;
+            let n = r.gen_range(2..=3);
+            let wide = r.gen_range(0..n);
+            let mut vars = vec![];
+            let mut coefs = vec![];
+            for i in 0..n {
+                if i == wide || r.gen_range(0..4) == 0 {
+                    let lo = [-LIM, -LIM + 5, -(1 << 30), -7, 0][r.gen_range(0..5)];
+                    let hi = [LIM, LIM - 3, 1 << 30, (1 << 30) + 12345][r.gen_range(0..4)];
+                    vars.push((lo, hi));
+                    coefs.push(if r.gen_bool(0.5) { 1 } else { -1 });
+                } else {
+                    let lo = r.gen_range(-12..=12i64);
+                    vars.push((lo, lo + r.gen_range(0..=20i64)));
+                    coefs.push([1, -1, 2, -3, 5][r.gen_range(0..5)]);
+                }
+            }
+            let rhs = [LIM, LIM - 10, 1 << 30, 0, 17, -(1 << 30), -LIM, -LIM + 9][r.gen_range(0..8)] + if r.gen_bool(0.3) { 0 } else { r.gen_range(-3..=3i64) };
+            let rhs = rhs.clamp(-LIM, LIM);
+            extra = Json::obj([
+                ("regime", Json::str("wide")),
+                (
+                    "wide",
+                    Json::obj([
+                        ("vars", Json::arr(vars.iter(), |p| Json::Arr(vec![Json::int(p.0), Json::int(p.1)]))),
+                        ("coefs", Json::arr(coefs.iter(), |c| Json::int(*c))),
+                        ("rhs", Json::int(rhs)),
+                    ]),
+                ),
+            ]);
+            model::Model::default()
+        }
         "c16" => {
             let kinds = ["lin_le", "lin_eq", "lin_ne", "plus", "times", "div", "abs", "max", "min", "element", "bin_le", "bin_ne"];
             let extreme = (idx / kinds.len() as u64) % 2 == 1;
